@@ -1027,9 +1027,29 @@ func (s *SwapService) lockSwap(swapId, channelId string, fsm *SwapStateMachine) 
 		}
 	}
 
+	// Swaps that are stored but not (yet) restored also occupy their channel:
+	// after a restart requests can arrive before RecoverSwaps has run.
+	if cs, ok := s.swapServices.swapStore.(channelSwapFinder); ok {
+		id, err := cs.UnfinishedSwapOnChannel(channelId, swapId)
+		if err != nil {
+			return err
+		}
+		if id != "" {
+			return ActiveSwapError{channelId: channelId, swapId: id}
+		}
+	}
+
 	// Add active swap
 	s.activeSwaps[swapId] = fsm
 	return nil
+}
+
+// channelSwapFinder is implemented by stores that can look up stored swaps by
+// channel.
+type channelSwapFinder interface {
+	// UnfinishedSwapOnChannel returns the id of a stored swap on the channel
+	// that has started and is not finished, ignoring the swap exceptId, or "".
+	UnfinishedSwapOnChannel(channelId, exceptId string) (string, error)
 }
 
 type ActiveSwapError struct {
